@@ -199,6 +199,10 @@ func Unmarshal(src, dst any) error {
 	case int:
 		return unmarshalScalar(tsrc, dst)
 
+	case uint64:
+		// yaml.v3 decodes an integer beyond the range of int64 as a uint64.
+		return unmarshalScalar(tsrc, dst)
+
 	case bool:
 		return unmarshalScalar(tsrc, dst)
 
